@@ -425,36 +425,56 @@ class Check(core.PropertyCheck):
             "tcp": {**B, "Mode": "flow", "Trs": frozenset({"tcp"}), "Ups": frozenset({True}), "MaxQ": 2, "MaxR": 1,
                     "MaxBad": 1, "BadKinds": frozenset({"zero"}), "Qs": frozenset({"A"}) if q else frozenset({"A", "B"}),
                     "Policies": frozenset({"none"}) if q else frozenset({"none", "respond"})},
-            "seg": {**B, "Mode": "seg", "Trs": frozenset({"tcp"}), "Ups": frozenset({True}), "MaxQ": 0, "MaxR": 0,
+            "seg": {**B, "Mode": "seg", "Ids": frozenset({1, 2, 3}), "Trs": frozenset({"tcp"}), "Ups": frozenset({True}),
+                    "MaxQ": 0, "MaxR": 0,
                     "MaxBad": 0, "Streams": streams, "SWhole": q},
         }
 
+    TAGS = ("udp", "tcp", "seg")
+
     def model_runs(self, ctx):
-        c = self._consts(ctx.tier)
-        out = []
-        for tag in ("udp", "tcp", "seg"):
-            out.append(ctx.model_check(self.MODEL, c[tag], dump=True, tag="_" + tag))
-        for tag, m in zip(("udp", "tcp", "seg"), out):
+        small = self._consts("quick")
+        small["seg"] = self._consts(ctx.tier)["seg"]  # the segmentation model stays small: always dumped
+        out = [ctx.model_check(self.MODEL, small[tag], dump=True, tag="_" + tag) for tag in self.TAGS]
+        for tag, m in zip(self.TAGS, out):
             need = {"udp": ("ClientQuery", "UpstreamReply", "HookDone", "OpenDone", "ClientBad", "Finish"),
                     "tcp": ("CSeg", "SSeg", "ClientZero", "HookDone"), "seg": ("CSeg", "SSeg", "EndRun")}[tag]
             for a in need:
                 if not m.coverage.get(a):
                     raise core.MachineryError(f"vacuous model run {tag}: action {a} never taken")
+        self.sim = []
+        if not ctx.quick:
+            # larger instances: exhaustive statistics without a dump, behaviours by simulation
+            big = self._consts("thorough")
+            for tag in ("udp", "tcp"):
+                out.append(ctx.model_check(self.MODEL, big[tag], dump=False, tag="_big_" + tag, timeout=2400))
+                behs, _r = ctx.simulate(self.MODEL, big[tag], num=2500, depth=40, tag="sim_" + tag, timeout=900)
+                self.sim += behs
         return out
 
     def scenarios(self, ctx, models):
         rng = random.Random(ctx.seed + 27)
-        nwalk = {"udp": 1500, "tcp": 800, "seg": 600} if ctx.quick else {"udp": 20000, "tcp": 12000, "seg": 8000}
+        nwalk = {"udp": 1500, "tcp": 800, "seg": 600} if ctx.quick else {"udp": 20000, "tcp": 12000, "seg": 6000}
         seen = set()
-        for tag, m in zip(("udp", "tcp", "seg"), models):
+
+        def emit(b, source):
+            sc = beh_to_scenario(b, seed=rng.randrange(1 << 20))
+            sc.source = source
+            key = (sc.data["tr"], sc.data["upstream"], repr(sc.data["ops"]))
+            if key in seen or len(sc.data["ops"]) < 2:
+                return None
+            seen.add(key)
+            return sc
+
+        for tag, m in zip(self.TAGS, models[:3]):
             g = m.graph
-            behs = g.edge_cover(ctx.rng, max_len=40, tail=6) + g.random_walks(ctx.rng, nwalk[tag], 40)
-            for b in behs:
-                sc = beh_to_scenario(b, seed=rng.randrange(1 << 20))
-                key = (sc.data["tr"], sc.data["upstream"], repr(sc.data["ops"]))
-                if key in seen:
-                    continue
-                seen.add(key)
+            for b in g.edge_cover(ctx.rng, max_len=40, tail=6) + g.random_walks(ctx.rng, nwalk[tag], 40):
+                sc = emit(b, "model")
+                if sc:
+                    yield sc
+        for b in self.sim:
+            sc = emit(b, "simulate")
+            if sc:
                 yield sc
         yield from self._random(ctx, rng)
 
